@@ -1054,3 +1054,19 @@ def extra(ctx):
                     ctx.call("bin", ts.bin, np.array(orc.from_nyx(nyx, o_in), order="C"), b, input_order=o_in, output_order=o_out, output_file=out)
                     cnt += 1
     ctx.extra["exhaustive: bin factor 1..40, integral block means (4 kinds, +/-), {int16, float32}, file on/off"] = cnt
+    # bin: every factor 1..40 on constant and near-constant LARGE-valued float32 images, as x,y,n array (transposed view inside
+    # cryoCAT) and as n,y,x array: a float32 accumulator without pairwise summation drifts by b*b*2^-24 there (the defect
+    # repaired in /repo), a float64 one does not
+    cnt = 0
+    consts = np.array([32767.0, -32768.0, 30000.25, -25000.5, 16777215.0, 1000.0], dtype=np.float64)
+    for b in range(1, 41):
+        for kind in ("constant", "near_constant"):
+            nyx = np.repeat(consts[:, None, None], 40, axis=1).repeat(40, axis=2)
+            if kind == "near_constant":
+                nyx = nyx + rng.uniform(-1.0, 1.0, nyx.shape)
+            nyx = nyx.astype(np.float32)
+            for o_in in orc.ORDERS:
+                out = os.path.join(ctx.scratch, "sweep_bin_out.mrc")
+                ctx.call("bin", ts.bin, np.array(orc.from_nyx(nyx, o_in), order="C"), b, input_order=o_in, output_order=orc.ORDERS[b % 2], output_file=out)
+                cnt += 1
+    ctx.extra["exhaustive: bin factor 1..40, (near-)constant large float32 images, array xyz and zyx, file on"] = cnt
